@@ -23,6 +23,7 @@ pub mod c18;
 pub mod c19;
 pub mod c20;
 pub mod fid;
+pub mod fuzz_entry;
 pub mod planted;
 
 /// Parent-side preparation before the lanes start.
@@ -45,6 +46,9 @@ macro_rules! registry {
             match id { $( $id => $m::run(ctx), )* _ => panic!("unknown property {id}") }
         }
         pub fn replay(id: &str, sub: &str, case: &Value) -> Verdict {
+            if sub.starts_with("fuzz-") {
+                return crate::fw::replay_case::<fuzz_entry::Bytes>(case, |b| fuzz_entry::replay(sub, b));
+            }
             match id { $( $id => $m::replay(sub, case), )* _ => Verdict::Inconclusive(format!("unknown property {id}")) }
         }
     };
